@@ -1869,11 +1869,68 @@ pub fn event_hook(id: u32, arg: usize) {
         }
         return;
     }
+    if id == verif_rt::WRITER_ENTERED || id == verif_rt::WRITER_LEFT {
+        // who is inside which node (writer reservations), for the cooldown invariant below
+        w(|w| {
+            let Some(node) = w.nodes_seen.range(..=arg).next_back().copied() else { return };
+            if arg - node > 4096 {
+                return;
+            }
+            if id == verif_rt::WRITER_ENTERED {
+                w.writer_entries += 1;
+                let n = w.writer_entries;
+                w.writers_inside.push((node, me, n));
+            } else if let Some(p) = w.writers_inside.iter().rposition(|e| e.0 == node && e.1 == me) {
+                w.writers_inside.remove(p);
+            }
+        });
+        return;
+    }
     if (verif_rt::IN_USE_WRITE_BASE..verif_rt::IN_USE_WRITE_BASE + 256).contains(&id) {
         // A node's `in_use` word was written. Anything but USED (1) written by the owner is the
         // release of the node, however the code does it (cooldown or not).
         // (the low two bits are the state; the rest of the word counts the node's claims)
         let new = (id - verif_rt::IN_USE_WRITE_BASE) & 3;
+        // The reason for the cooldown: a writer that was inside the node when its owner let it go
+        // (it may have read a generation of that owner) must be out before the node can serve
+        // anybody else. Checked when the cooldown ends, for every schedule and memory mode.
+        let stuck = w(|w| {
+            let node = w.nodes_seen.range(..=arg).next_back().copied()?;
+            if arg - node > 4096 {
+                return None;
+            }
+            match new {
+                2 => {
+                    // cooldown starts: remember who is inside (the owner's own reservation in
+                    // start_cooldown does not count)
+                    w.cooldown_witness.retain(|e| e.0 != node);
+                    let inside: Vec<(usize, usize, u64)> = w.writers_inside.iter().filter(|e| e.0 == node && e.1 != me).copied().collect();
+                    w.cooldown_witness.extend(inside);
+                    None
+                }
+                0 => {
+                    let still = w
+                        .cooldown_witness
+                        .iter()
+                        .find(|e| e.0 == node && w.writers_inside.contains(e))
+                        .map(|e| e.1);
+                    w.cooldown_witness.retain(|e| e.0 != node);
+                    *w.extra_counts.entry("cooldown_end_checks".into()).or_insert(0) += 1;
+                    still
+                }
+                _ => None,
+            }
+        });
+        if let Some(t) = stuck {
+            rt::fail(
+                "node-monitor",
+                format!(
+                    "thread {} ended the cooldown of a node while thread {}, a writer that entered it under its previous owner, is still inside",
+                    me, t
+                ),
+            );
+            return;
+        }
         if new == 1 {
             return;
         }
